@@ -54,6 +54,26 @@ def _touches_class_attr(P, o, an):
     return False
 
 
+def _is_class_level(r, q, an, e):
+    """The object reached through self.<an> at this event is the class-level one unless the method itself bound self.<an> earlier."""
+    s = r.A.summary(q)
+    for prev in s.events:
+        if prev.seq >= e.seq:
+            break
+        if prev.kind == "setattr" and strip(prev["obj"]) == ("param", "self") and prev["name"] == an:
+            return False
+    fn = r.P.functions[q]
+    if fn.cls is None:
+        return True
+    # other methods: the attribute is class-level unless __init__ (of the class or a base) binds it on the instance
+    for c in r.P.mro(fn.cls):
+        init = r.P.classes[c].methods.get("__init__") if c in r.P.classes else None
+        if init and init != q:
+            if any(ev.kind == "setattr" and strip(ev["obj"]) == ("param", "self") and ev["name"] == an for ev in r.A.summary(init).events):
+                return False
+    return True
+
+
 def run(r, all_functions=False):
     rep = r.rep
     E = Effects(r.P, r.A)
@@ -105,7 +125,7 @@ def run(r, all_functions=False):
     for cq, ci in sorted(r.P.classes.items()):
         for an, val in ci.attrs.items():
             mutable = isinstance(val, (ast.List, ast.Dict, ast.Set, ast.ListComp, ast.DictComp, ast.SetComp)) or \
-                (isinstance(val, ast.Call) and isinstance(val.func, ast.Name) and val.func.id in ("dict", "list", "set", "defaultdict"))
+                (isinstance(val, ast.Call) and not (isinstance(val.func, ast.Name) and val.func.id in ("range", "frozenset", "tuple", "property", "staticmethod", "classmethod", "str", "int", "float")))
             if not mutable:
                 continue
             # a class-level container is shared by all instances and calls: nobody may modify it in place
@@ -114,12 +134,16 @@ def run(r, all_functions=False):
                 s = r.A.summary(q)
                 for e in s.events:
                     objs = []
-                    if e.kind in ("setitem", "augitem", "delitem", "setattr", "augattr"):
-                        objs.append(e["obj"] if e.kind not in ("setattr", "augattr") else ("attr", e["obj"], e["name"]))
+                    if e.kind in ("setitem", "augitem", "delitem"):
+                        objs.append(e["obj"])
+                    elif e.kind in ("setattr", "augattr"):
+                        objs.append(e["obj"])          # writing an attribute OF the object reached through self.<an>
                     elif e.kind == "call" and head(strip(strip(e["term"])[1])) == "attr" and strip(strip(e["term"])[1])[2] in ALL_MUTATORS:
                         objs.append(strip(strip(e["term"])[1])[1])
                     for o in objs:
-                        if _touches_class_attr(r.P, o, an) and e.kind not in ("setattr",):
+                        # binding the attribute on the instance (self.X = ...) shadows the class value and is fine; writing *into* it is not
+                        direct_bind = e.kind in ("setattr", "augattr") and strip(e["obj"]) in (("param", "self"),) and e["name"] == an and e.kind == "setattr"
+                        if _touches_class_attr(r.P, o, an) and not direct_bind and _is_class_level(r, q, an, e):
                             writers.append((q, e))
             rep.ob("C20-GLB", cq, not writers, f"class-level container '{an}' (shared by all instances and calls) is never modified in place", f"{r.P.modules[ci.module].relpath}:{val.lineno}",
                    expected="read-only", found="; ".join(f"{q.rsplit('.', 1)[1]}:{e.line}" for q, e in writers) or "read-only", key=f"class attr {an}")
